@@ -744,6 +744,9 @@ def check(P, R, tier):
     check_hang(P, R, tu)
     check_ymd2daisy(P, R, tu, base)
     check_conv(P, R, tu)
+    import lentab
+    n = lentab.check(P, R, tu, {"mdays", "m01wd", "ydays"}, rule="RF2-closed")
+    R.floor("RF2-closed", "entries of calendar tables spelled as closed forms", n, 200)
 
 
 LEVEL = ("Decides the data and closed formulas the conversions are built from, against a first-principles Gregorian / ISO 8601 "
